@@ -550,6 +550,7 @@ type signedDoc struct {
 	signer *key
 	bytes  []byte
 	want   []Para
+	light  bool // alphabet-audit size documents: one substitution per offset instead of the full fault set
 }
 
 // allFaults is the complete single-fault list for doc: every offset × (substitutions, deletion, insertions,
@@ -564,7 +565,7 @@ func allFaults(doc []byte, subs func(b byte) []byte, splices []Fault) []Fault {
 			fs = append(fs, Fault{Op: "del", Off: off})
 			fs = append(fs, Fault{Op: "trunc", Off: off})
 		}
-		for _, ib := range []byte{'X', '\n', ' '} {
+		for _, ib := range insertBytes() {
 			fs = append(fs, Fault{Op: "ins", Off: off, Data: []byte{ib}})
 		}
 	}
@@ -702,6 +703,16 @@ func Run(r *mc.Run) {
 	}
 	vacuous := false
 	selfCheck(r, docs, signed, K1, K2)
+	// alphabet audit: extra documents built from literals a change introduced (none on the unchanged tree)
+	auditDocs, auditDropped := auditDocuments(r, K1)
+	signed = append(signed, auditDocs...)
+	if len(auditDocs)+auditDropped > 0 {
+		var names []string
+		for _, sd := range auditDocs {
+			names = append(names, sd.m.Name)
+		}
+		r.Extra["alphabet_audit_documents"] = map[string]interface{}{"added": names, "dropped_because_not_verifiable_untampered": auditDropped}
+	}
 
 	// ---- scenario 1: unsigned input never has a signer (and the model agrees with the reader)
 	type ucase struct {
@@ -783,12 +794,14 @@ func Run(r *mc.Run) {
 	})
 
 	// ---- scenario 3: tampering, complete for single faults, + splices
+	auditKeyrings(r, signed, K1, K2, entries)
 	subs := subsQuick
 	tamperRings := []ringSpec{{kind: "list", keys: []*key{K1}}}
 	if !r.Quick() {
 		subs = subsThorough
 		tamperRings = append(tamperRings, ringSpec{kind: "list", keys: []*key{K1, K2}}, ringSpec{kind: "list", keys: []*key{K2, K1}})
 	}
+	subs = withAuditSubs(subs)
 	const chunk = 128
 	for _, sd := range signed {
 		if sd.signer != K1 {
@@ -805,8 +818,11 @@ func Run(r *mc.Run) {
 			}
 			fb["signed-by-"+k.name] = b
 		}
-		splices := spliceList(sd.bytes, sd.m.EOL, fb)
+		splices := append(spliceList(sd.bytes, sd.m.EOL, fb), auditSplices(sd.bytes, sd.m.EOL)...)
 		faults := allFaults(sd.bytes, subs, splices)
+		if sd.light {
+			faults = lightFaults(sd.bytes, splices)
+		}
 		ts, te, _ := gen.CSRegion(sd.bytes)
 		type job struct {
 			e  string
